@@ -16,7 +16,12 @@ use crate::util::VMWorkerThread;
 use crate::vm::{ObjectModel, VMBinding};
 use std::sync::atomic::AtomicBool;
 use std::sync::atomic::Ordering;
+#[cfg(not(mmtk_verif))]
 use std::sync::{Arc, Mutex};
+#[cfg(mmtk_verif)]
+use crate::util::verif::sync::Mutex;
+#[cfg(mmtk_verif)]
+use std::sync::Arc;
 
 use mmtk_macros::{HasSpaces, PlanTraceObject};
 
